@@ -1173,6 +1173,40 @@ func (ex *Exec) resolveLocal(name string, pt *progPoint, st *State) (TV, bool) {
 			}
 		}
 	}
+	if name == "$key" {
+		// the key produced by the map iteration of the enclosing loop (for `for _, v := range m`)
+		for _, l := range ex.loops {
+			if l.Header == pt.block || l.Blocks[pt.block] {
+				for _, ins := range l.Header.Instrs {
+					if nx, ok := ins.(*ssa.Next); ok {
+						if rg, ok := nx.Iter.(*ssa.Range); ok {
+							if it := ex.rangeIters[rg]; it != nil && !it.isStr {
+								if v := ex.val(nx); len(v.Tup) == 3 {
+									mk := ex.mapComps(it.mt)
+									return TV{T: v.Tup[1].T, Ty: goVT(mk.kt)}, true
+								}
+							}
+						}
+					}
+				}
+			}
+		}
+	}
+	if name == "$n" {
+		for _, l := range ex.loops {
+			if l.Header == pt.block || l.Blocks[pt.block] {
+				for _, ins := range l.Header.Instrs {
+					if nx, ok := ins.(*ssa.Next); ok {
+						if rg, ok := nx.Iter.(*ssa.Range); ok {
+							if it := ex.rangeIters[rg]; it != nil && !it.isStr {
+								return TV{T: ex.get(st, it.cntKey, "Int"), Ty: vtInt}, true
+							}
+						}
+					}
+				}
+			}
+		}
+	}
 	if name == "$visited" {
 		// keys already produced by the map iteration of the enclosing loop
 		for _, l := range ex.loops {
